@@ -130,3 +130,65 @@ func Harness_C19_rewrite_term() {
 	}
 	verifReach("end")
 }
+
+// Reserved tags over a sequence: a validated credential's tag is removed together with the credential ({del cred}
+// on 'me'); afterwards the 'me' topic works from the same tag list as the store, so a {set tags} that lists the
+// removed tag again is judged against the truth - it cannot smuggle the reserved tag back.
+func Harness_C19_del_cred_then_set_tags() {
+	verifNewStore()
+	verifInitGlobals()
+	u := types.Uid(5)
+	me := verifMeTopicR(u)
+	me.tags = []string{"email:a@b.c", "plain"}
+	verifUserTags = []string{"email:a@b.c", "plain"}
+	verifStore.users[u] = &types.User{State: types.StateOK, Tags: types.StringSlice{"email:a@b.c", "plain"}}
+	globals.validators = map[string]credValidator{"email": {addToTags: true}}
+	globals.immutableTagNS = map[string]bool{"email": true}
+	globals.maxTagCount = 8
+	store.Store = verifStoreObjR{basic: &verifAuthHandlerR{verifAuthHandler: verifAuthHandler{name: "basic"}}}
+	s := verifNewSession("sid-a", u, auth.LevelAuth, 16)
+	me.sessions[s] = perSessionData{uid: u}
+	del := &ClientComMessage{Id: "d1", AsUser: u.UserId(), AuthLvl: int(auth.LevelAuth), Original: "me", RcptTo: me.name, Timestamp: types.TimeNow(),
+		sess: s, init: true, Del: &MsgClientDel{Id: "d1", Topic: "me", What: "cred", Cred: &MsgCredClient{Method: "email", Value: "a@b.c"}}}
+	err := me.replyDelCred(s, u, auth.LevelAuth, del)
+	verifAssert(err == nil, "credential-removed")
+	verifAssert(verifTagsEqR(me.tags, verifUserTags), "cached-tags-equal-the-stored-tags-after-a-credential-is-removed")
+	for _, tg := range me.tags {
+		verifAssert(tg != "email:a@b.c", "removed-credentials-tag-is-gone")
+	}
+	verifDrainSend(s)
+	// the client now tries to keep the old reserved tag while changing an ordinary one
+	set := &ClientComMessage{Id: "t1", AsUser: u.UserId(), AuthLvl: int(auth.LevelAuth), Original: "me", RcptTo: me.name, Timestamp: types.TimeNow(),
+		sess: s, init: true, MetaWhat: constMsgMetaTags, Set: &MsgClientSet{Id: "t1", Topic: "me", MsgSetQuery: MsgSetQuery{Tags: []string{"email:a@b.c", "other"}}}}
+	me.replySetTags(s, u, set)
+	code := 0
+	for _, r := range verifDrainSend(s) {
+		if r != nil && r.Ctrl != nil && r.Ctrl.Id == "t1" {
+			code = r.Ctrl.Code
+		}
+	}
+	verifAssert(code >= 400, "reserved-tag-cannot-be-added-back-by-the-client")
+	for _, tg := range me.tags {
+		verifAssert(tg != "email:a@b.c", "reserved-tag-not-in-the-live-list")
+	}
+	verifReach("end")
+}
+
+func verifMeTopicR(u types.Uid) *Topic {
+	return &Topic{name: u.UserId(), xoriginal: "me", cat: types.TopicCatMe, status: topicStatusLoaded,
+		perUser:  map[types.Uid]perUserData{u: {modeWant: types.ModeCSelf, modeGiven: types.ModeCSelf}},
+		perSubs:  map[string]perSubsData{},
+		sessions: map[*Session]perSessionData{}}
+}
+
+func verifTagsEqR(a, b []string) bool {
+	if len(a) != len(b) {
+		return false
+	}
+	for i := range a {
+		if a[i] != b[i] {
+			return false
+		}
+	}
+	return true
+}
